@@ -626,6 +626,29 @@ impl World {
             ["rawsj", b] => {
                 std::fs::write(self.storage.join("state.json"), self.blob(b)).unwrap();
             }
+            ["sjq", rel, evs] => {
+                // a state.json holding the given queued events (same token syntax as the trace prints)
+                let mut q = vec![];
+                for t in evs.split(',').filter(|x| !x.is_empty() && *x != "-") {
+                    let f: Vec<&str> = t.split('.').collect();
+                    let ty = match f[0] {
+                        "S" => "__patch_install__",
+                        "F" => "__patch_install_failure__",
+                        _ => "__patch_download__",
+                    };
+                    let msg = match f[4] {
+                        "i" => serde_json::Value::String(format!("Patch {} was marked currently_booting in init", f[1])),
+                        "e" => serde_json::Value::String(format!("Install failure reported from engine for patch {}", f[1])),
+                        _ => serde_json::Value::Null,
+                    };
+                    q.push(serde_json::json!({
+                        "app_id": str_tok(f[2]), "arch": arch(), "type": ty,
+                        "patch_number": f[1].parse::<u64>().unwrap(), "platform": "linux",
+                        "release_version": str_tok(f[3]), "timestamp": 1700000000u64, "message": msg}));
+                }
+                let v = serde_json::json!({"release_version": str_tok(rel), "queued_events": q});
+                std::fs::write(self.storage.join("state.json"), serde_json::to_vec_pretty(&v).unwrap()).unwrap();
+            }
             ["artisfile", n] => {
                 let _ = std::fs::remove_dir_all(pdir(n));
                 std::fs::create_dir_all(self.storage.join("patches")).unwrap();
@@ -829,7 +852,7 @@ pub fn main(args: &[String]) -> i32 {
                 }
                 out.flush().unwrap();
             }
-            "applypatch" | "sha" | "wfm" | "sdiff" | "varint" => {}
+            "applypatch" | "sha" | "wfm" | "sdiff" | "varint" | "chunked" => {}
             "t0" | "t1" | "t2" => {
                 let idx: usize = toks[0][1..].parse().unwrap();
                 while sched_threads.len() <= idx {
